@@ -2,7 +2,7 @@
 //!
 //! tess <opts> <dim> <periodic> <anchor:3> <width:3> <n> <has_mask> [mask:n] <gens:3n>
 //! opts bits: 1 direct Voronoi, 2 integrator (+ integrals, Voronoi::from), 4 with_faces (3D),
-//!            8 decision trace, 16 threads sweep handled by the caller (env RAYON_NUM_THREADS)
+//!            8 decision trace (16: with the full list of decisions), 16 threads sweep handled by the caller (env RAYON_NUM_THREADS)
 use glam::DVec3;
 use meshless_voronoi::integrals::{AreaCentroidIntegral, VolumeCentroidIntegral};
 use meshless_voronoi::verif_hooks as hooks;
@@ -107,10 +107,28 @@ pub fn run(t: &mut Toks) -> String {
         let mut exact_cells: Vec<usize> = tr.iter().filter(|d| d.exact_args.is_some()).map(|d| d.cell).collect();
         exact_cells.sort();
         exact_cells.dedup();
+        // smallest |triple product of the unit normals| over all vertices that took part in a decision
+        let min_det = tr.iter().map(|d| d.det.abs()).fold(f64::INFINITY, f64::min);
         out.push(format!(
-            "\"trace\":{{\"decisions\":{},\"exact\":{},\"exact_cells\":{},\"exact_list\":[{}]}}",
-            tr.len(), n_exact, json::us(&exact_cells), exact.join(",")
+            "\"trace\":{{\"decisions\":{},\"exact\":{},\"exact_cells\":{},\"min_det\":{},\"exact_list\":[{}]}}",
+            tr.len(), n_exact, json::us(&exact_cells), if min_det.is_finite() { format!("{:e}", min_det) } else { "null".to_string() }, exact.join(",")
         ));
+        if opts & 16 != 0 {
+            // every decision, in chronological order per cell: [cell, dual x3, right generator or -1, shift or null, filter value, final value]
+            let all: Vec<String> = tr
+                .iter()
+                .map(|d| {
+                    format!(
+                        "[{},{},{},{},{},{},{},{}]",
+                        d.cell, d.dual[0], d.dual[1], d.dual[2],
+                        d.plane.0.map_or(-1i64, |r| r as i64),
+                        d.plane.1.map_or("null".to_string(), json::v3),
+                        d.filter as i64, if d.clip < 0. { -1 } else if d.clip > 0. { 1 } else { 0 }
+                    )
+                })
+                .collect();
+            out.push(format!("\"decisions\":[{}]", all.join(",")));
+        }
     }
     if let Some(msg) = panicked {
         // report the panic together with the decisions taken so far (which cells used the exact predicate)
